@@ -663,8 +663,10 @@ def rule_partial(c: Ctx) -> RuleResult:
                     par_k = f.module.parents.get(defs_k[0]) if len(defs_k) == 1 else None
                     if isinstance(par_k, ast.Assign) and len(par_k.targets) == 1 and par_k.targets[0] is defs_k[0]:
                         inner = {x.id for x in ast.walk(par_k.value) if isinstance(x, ast.Name)}
-                        if all(len([y for y in own_nodes(f.node) if isinstance(y, ast.Name) and y.id == nm and isinstance(y.ctx, ast.Store)]) <= 1
-                               for nm in inner):
+                        from ..reach import Reaching
+                        rd_ = Reaching(cfg)
+                        # nothing the defining expression mentions is rebound between the definition and the use
+                        if all({id(d_) for d_ in rd_.at_ast(par_k, nm)} == {id(d_) for d_ in rd_.at_ast(site, nm)} for nm in inner):
                             k_alias = U(par_k.value)
                 if holds(f"K:{U(recv)}|{U(k)}") or (k_alias is not None and holds(f"K:{U(recv)}|{k_alias}")):
                     why = "the key is present: a membership test or a store of this key dominates the read, and nothing in between can remove it"
